@@ -1,7 +1,7 @@
 import Gmx.Lemmas.Chainlink
 import Gmx.Lemmas.PriceDecimal
 /-!
-# C28 — Chainlink reports are decoded safely and converted faithfully (partial)
+# C28 — Chainlink reports are decoded safely and converted faithfully (external decoders searched)
 
 `decodeFullReport` = `decode_full_report` with every slice bounds-checked (`panic` branch);
 `fromReport` = `PriceFeedPrice::from_chainlink_report` on the decoded fields.
@@ -30,25 +30,31 @@ theorem decode_total (p : List Nat) : decodeFullReport p ≠ .error .panic := by
         · cases h
         · split at h
           · cases h
-          · split at h <;> cases h
+          · split at h
+            · cases h
+            · split at h
+              · cases h
+              · split at h <;> cases h
 
-/-- a successful decode: the blob is `payload[off+32 .. off+32+len]` with `off`, `len` the LOW
-8 bytes of the offset / length words, everything inside the payload; the context is the first
-three words. -/
+/-- a successful decode: the upper 24 bytes of the offset word and of the length word are zero,
+the blob is `payload[off+32 .. off+32+len]` with `off`, `len` the low 8 bytes of the words,
+everything inside the payload; the context is the first three words. -/
 theorem decode_slice_spec {p : List Nat} {ctx : List (List Nat)} {blob : List Nat}
     (h : decodeFullReport p = .ok (ctx, blob)) :
     let off := be ((p.drop 120).take 8)
     let len := be ((p.drop (off + 24)).take 8)
     128 ≤ p.length ∧ 128 ≤ off ∧ off + 32 + len ≤ p.length ∧
     blob = (p.drop (off + 32)).take len ∧ blob.length = len ∧
-    ctx = [p.take 32, (p.drop 32).take 32, (p.drop 64).take 32] := by
+    ctx = [p.take 32, (p.drop 32).take 32, (p.drop 64).take 32] ∧
+    (p.drop 96).take 24 = List.replicate 24 0 ∧ (p.drop off).take 24 = List.replicate 24 0 := by
   rw [decode_eq] at h; unfold decodeSpec at h
   simp only at h ⊢
   split at h
   · cases h
   · split at h
     · cases h
-    · split at h
+    · rename_i hu
+      split at h
       · cases h
       · split at h
         · cases h
@@ -56,45 +62,60 @@ theorem decode_slice_spec {p : List Nat} {ctx : List (List Nat)} {blob : List Na
           · cases h
           · split at h
             · cases h
-            · cases h
-              refine ⟨by omega, by omega, by omega, rfl, ?_, rfl⟩
-              simp only [List.length_take, List.length_drop]; omega
+            · rename_i hl
+              split at h
+              · cases h
+              · split at h
+                · cases h
+                · cases h
+                  have z1 := all_zero_eq_replicate _ (by simpa using hu)
+                  have z2 := all_zero_eq_replicate _ (by simpa using hl)
+                  rw [List.length_take, List.length_drop] at z1 z2
+                  refine ⟨by omega, by omega, by omega, rfl, ?_, rfl, ?_, ?_⟩
+                  · simp only [List.length_take, List.length_drop]; omega
+                  · rw [show min 24 (p.length - 96) = 24 by omega] at z1; exact z1
+                  · rw [Nat.min_eq_left (by omega)] at z2; exact z2
 
-/-- conversely every payload meeting those bounds decodes (no spurious rejection). -/
+/-- conversely every payload meeting those bounds (and with zero upper bytes) decodes. -/
 theorem decode_ok_of_bounds (p : List Nat) (h0 : 128 ≤ p.length)
+    (hz1 : (p.drop 96).take 24 = List.replicate 24 0)
     (h1 : 128 ≤ be ((p.drop 120).take 8))
+    (hz2 : (p.drop (be ((p.drop 120).take 8))).take 24 = List.replicate 24 0)
     (h2 : be ((p.drop 120).take 8) + 32 +
       be ((p.drop (be ((p.drop 120).take 8) + 24)).take 8) ≤ p.length) (h3 : p.length < 2 ^ 64) :
     ∃ ctx blob, decodeFullReport p = .ok (ctx, blob) := by
   rw [decode_eq]; unfold decodeSpec
   simp only
-  rw [if_neg (by omega), if_neg (by omega), if_neg (by omega), if_neg (by omega), if_neg (by omega),
-    if_neg (by omega)]
+  have a1 : ((p.drop 96).take 24).any (· != 0) = false := by rw [hz1]; decide
+  have a2 : ((p.drop (be ((p.drop 120).take 8))).take 24).any (· != 0) = false := by rw [hz2]; decide
+  rw [if_neg (by omega), if_neg (by simp [a1]), if_neg (by omega), if_neg (by omega), if_neg (by omega),
+    if_neg (by simp [a2]), if_neg (by omega), if_neg (by omega)]
   exact ⟨_, _, rfl⟩
 
-/-- **the blob is exactly the ABI-described slice — provided the upper 24 bytes of the offset
-and length words are zero** (the ABI words are 32-byte integers; the code reads 8 bytes). -/
-theorem decode_abi_slice_partial {p : List Nat} {ctx : List (List Nat)} {blob : List Nat}
-    (h : decodeFullReport p = .ok (ctx, blob))
-    (hoff : (p.drop 96).take 24 = List.replicate 24 0)
-    (hlen : (p.drop (abiOffset p)).take 24 = List.replicate 24 0) :
+/-- **When decoding succeeds the blob is exactly the ABI-described slice of the payload**: the
+offset and length are the full 32-byte ABI words (since /repo 3d0a82d non-zero upper bytes are
+rejected, so no hypothesis is needed). -/
+theorem decode_abi_slice {p : List Nat} {ctx : List (List Nat)} {blob : List Nat}
+    (h : decodeFullReport p = .ok (ctx, blob)) :
     abiOffset p + 32 + abiLength p (abiOffset p) ≤ p.length ∧
     blob = (p.drop (abiOffset p + 32)).take (abiLength p (abiOffset p)) := by
+  obtain ⟨_, _, h3, h4, _, _, hoff, hlen⟩ := decode_slice_spec h
   have e1 : abiOffset p = be ((p.drop 120).take 8) := be_word_low p 96 hoff
   have e2 : abiLength p (abiOffset p) = be ((p.drop (abiOffset p + 24)).take 8) :=
-    be_word_low p (abiOffset p) hlen
-  obtain ⟨_, _, h3, h4, _, _⟩ := decode_slice_spec h
+    be_word_low p (abiOffset p) (by rw [e1]; exact hlen)
   rw [e2, e1]
   exact ⟨h3, h4⟩
 
-/-- **F-C28 witness**: non-zero upper bytes are ignored. Offset word `ff…ff 0000000000000080`,
-length word `01 00…00 0000000000000004`: the decoder returns a 4-byte blob although the
-ABI-described offset lies far outside the 164-byte payload. -/
-theorem decode_abi_slice_witness :
-    let p := List.replicate 96 0 ++ (List.replicate 24 255 ++ [0, 0, 0, 0, 0, 0, 0, 128]) ++
-      ([1] ++ List.replicate 23 0 ++ [0, 0, 0, 0, 0, 0, 0, 4]) ++ [1, 2, 3, 4]
-    decodeSpec p = .ok ([List.replicate 32 0, List.replicate 32 0, List.replicate 32 0], [1, 2, 3, 4]) ∧
-    p.length = 164 ∧ abiOffset p > p.length := by
+/-- the former F-C28 witness (offset word `ff…ff 0000000000000080`) is now rejected … -/
+theorem decode_upper_offset_rejected :
+    decodeSpec (List.replicate 96 0 ++ (List.replicate 24 255 ++ [0, 0, 0, 0, 0, 0, 0, 128]) ++
+      ([1] ++ List.replicate 23 0 ++ [0, 0, 0, 0, 0, 0, 0, 4]) ++ [1, 2, 3, 4]) = .error .offset := by
+  decide +kernel
+
+/-- … and so is a non-zero upper byte in the length word alone. -/
+theorem decode_upper_length_rejected :
+    decodeSpec (List.replicate 96 0 ++ (List.replicate 24 0 ++ [0, 0, 0, 0, 0, 0, 0, 128]) ++
+      ([128] ++ List.replicate 23 0 ++ [0, 0, 0, 0, 0, 0, 0, 1]) ++ [238]) = .error .bytesData := by
   decide +kernel
 
 /-- the in-repo head of `report::decode` (feed id, version, dispatch) indexes in range for every
@@ -274,6 +295,10 @@ theorem lastUpdateDiff_ahead {obs lu : Nat} (hobs : obs < 2 ^ 32)
   rw [if_neg (by omega), if_neg (by omega), if_pos (by omega)]
 
 /-! ### Non-vacuity -/
+-- a well-formed payload decodes (so `decode_abi_slice` is not vacuous)
+example : decodeSpec (List.replicate 96 34 ++ (List.replicate 24 0 ++ [0, 0, 0, 0, 0, 0, 0, 128]) ++
+    (List.replicate 24 0 ++ [0, 0, 0, 0, 0, 0, 0, 4]) ++ [10, 11, 12, 13]) =
+  .ok ([List.replicate 32 34, List.replicate 32 34, List.replicate 32 34], [10, 11, 12, 13]) := by decide +kernel
 example : fromReport ⟨(true, 50000 * 10 ^ 18), (true, 49900 * 10 ^ 18), (true, 50100 * 10 ^ 18), 1000,
     some 1000000000000, some 2⟩ =
   .ok ⟨18, 1000, 50000 * 10 ^ 18, 49900 * 10 ^ 18, 50100 * 10 ^ 18, 0, 7, 3⟩ := by decide
